@@ -24,6 +24,7 @@ type Profile struct {
 	Responses        bool // @Response / @ErrorResponse / custom error types
 	SlashNoise       bool // doubled / missing / trailing slashes in templates
 	TrailingSlash    bool
+	RichValidators   bool // draw validators from the whole vocabulary both spec converters understand
 	VarySchemes      bool // draw the security scheme catalogue of the configuration
 	UndeclaredScheme bool // sometimes let routes name a scheme the configuration does not declare
 	FixedEngine      string
@@ -334,11 +335,88 @@ func GenProject(t *rapid.T, pf Profile) *Project {
 	return p
 }
 
+// ExcludedConflictingRules counts rule combinations dropped by construction (evidence only).
+var ExcludedConflictingRules int
+
+// ValidatorGroups names the schema keywords a validator rule writes.
+func ValidatorGroups(rule string) []string {
+	switch rule {
+	case "gt", "gte", "min", "minItems":
+		return []string{"lower"}
+	case "lt", "lte", "max", "maxItems":
+		return []string{"upper"}
+	case "len":
+		return []string{"lower", "upper"}
+	case "enum", "oneof":
+		return []string{"enum"}
+	case "email", "uuid", "ip", "ipv4", "ipv6", "hostname", "date", "datetime":
+		return []string{"format"}
+	}
+	return nil
+}
+
+// ConflictingRules reports whether a validator string holds two rules writing the same keyword.
+func ConflictingRules(v string) bool {
+	used := map[string]bool{}
+	for _, r := range strings.Split(v, ",") {
+		for _, g := range ValidatorGroups(strings.SplitN(r, "=", 2)[0]) {
+			if used[g] {
+				return true
+			}
+			used[g] = true
+		}
+	}
+	return false
+}
+
 func genValidator(t *rapid.T, pf Profile, typ TypeRef) string {
-	if !pf.Validators || rapid.IntRange(0, 2).Draw(t, "hasValidator") > 0 {
+	if !pf.Validators {
+		return ""
+	}
+	if skip := rapid.IntRange(0, 3).Draw(t, "hasValidator"); (pf.RichValidators && skip == 0) || (!pf.RichValidators && skip > 1) {
 		return ""
 	}
 	base := typ.Deref()
+	if pf.RichValidators {
+		n := rapid.IntRange(1, 3).Draw(t, "nRules")
+		var pool []string
+		switch {
+		case base.Kind == "prim" && base.Name == "string":
+			pool = []string{"email", "uuid", "ip", "ipv4", "ipv6", "hostname", "date", "datetime", "min=1", "max=10", "len=5", "pattern=^[a-z]+$", "enum=a|b|c", "oneof=a b c", "required"}
+		case base.Kind == "prim" && base.Name == "bool":
+			pool = []string{"required"}
+		case base.Kind == "prim":
+			pool = []string{"gt=1", "gte=0", "lt=100", "lte=50", "min=1", "max=9", "oneof=1 2 3", "required", "gt=0.5", "lte=2.5"}
+		case base.Kind == "slice":
+			pool = []string{"required", "minItems=1", "maxItems=3", "uniqueItems=true", "min=1", "max=3"}
+		default:
+			pool = []string{"required"}
+		}
+		drawn := rapid.SliceOfNDistinct(rapid.SampledFrom(pool), 1, n, func(s string) string { return strings.SplitN(s, "=", 2)[0] }).Draw(t, "rules")
+		// Two rules that write the same schema keyword (gt and min, len and max, enum and oneof, two
+		// formats) cannot both be represented; such contradictory combinations are kept out of the main
+		// profiles (the later rule wins differently in the two emitters: finding F-C11-2) and counted.
+		var rules []string
+		used := map[string]bool{}
+		for _, r := range drawn {
+			groups := ValidatorGroups(strings.SplitN(r, "=", 2)[0])
+			clash := false
+			for _, g := range groups {
+				if used[g] {
+					clash = true
+				}
+			}
+			if clash {
+				ExcludedConflictingRules++
+				continue
+			}
+			for _, g := range groups {
+				used[g] = true
+			}
+			rules = append(rules, r)
+		}
+		return strings.Join(rules, ",")
+	}
 	switch {
 	case base.Kind == "prim" && base.Name == "string":
 		return rapid.SampledFrom([]string{"email", "uuid", "min=1", "max=10", "len=5", "min=2,max=8", "oneof=a b c", "required", "ipv4", "hostname"}).Draw(t, "sval")
